@@ -152,6 +152,7 @@ def flagged_substrate_job(ctx, rng):
             if (fwd or bwd) and free and all(v != 0 for sp, v in enumerate(jb["x_si"]) if chem[sp]):
                 ctx.count("directed_flagged_substrate")
                 jb["integer_state"] = False
+                jb["U"] = L.DEFAULT_SYS          # make_dxdtf in µm / s / molecule: moderate, non-integral rates
                 return jb
     jb["integer_state"] = False
     return jb
@@ -502,6 +503,8 @@ def scenario_eval(case):
     labels = L.LABELS[:ns]
     if scen == "small-substrate":
         return small_substrate_eval(case)
+    if scen == "sink":
+        return sink_eval(case)
     species = [{"label": lab, "D": (1.0 if scen == "source" else 0.0), "density": 0} for lab in labels]
     net = {"species": species, "reactions": [{"eq": "%s -> %s" % (labels[f], labels[p]), "k+": k}] if scen == "reactant" else []}
     space = {"type": "grid", "w": 2, "h": 1, "d": 1} if kind == "grid" else {"type": "graph", "nodes": [{}, {}], "edges": [{"nodes": [0, 1]}]}
@@ -597,6 +600,47 @@ def small_substrate_eval(case):
     return True, None, detail
 
 
+def sink_eval(case):
+    """a free cell holding N molecules next to a chemostated cell holding 5 (D = 1 µm2/s, 1 µm cells: first-order constant 1/s
+    for leaving through the face): molecules jump INTO the chemostated cell as anywhere else, the free cell drains"""
+    import math
+    ns, f, kind, option, nsteps, N = case["ns"], case["flagged"], case["space"], case["option"], case["nsteps"], case["N"]
+    labels = L.LABELS[:ns]
+    species = [{"label": lab, "D": 1.0, "density": 0} for lab in labels]
+    space = {"type": "grid", "w": 2, "h": 1, "d": 1} if kind == "grid" else {"type": "graph", "nodes": [{}, {}], "edges": [{"nodes": [0, 1]}]}
+    system = L.build_system({"network": {"species": species, "reactions": []}, "space": space})
+    n = 2
+    x = [0.0] * (ns * n)
+    x[f * n] = 5.0
+    x[f * n + 1] = float(N)
+    system.state = x
+    system.reset_chemostats()
+    system.set_chemostat(f, 0, 1)
+    chem = [int(v) for v in system.chemostats]
+    dt = Fraction(1, 16)
+    script, traj, _ = run_engine(system, option, L.DEFAULT_SYS, dt, nsteps, case["seed"], False)
+    ss = engine_io.samples(traj)
+    last = ss[-1][1]
+    target = f * n + 1
+    detail = {"first": ss[0][1], "last": last, "chem": chem, "iterations": len(ss) - 1, "watched_entry": target}
+    if any(ss[j][1][e] != ss[0][1][e] for j in range(len(ss)) for e in range(ns * n) if chem[e]):
+        return False, "a chemostated entry changed", detail
+    steps = len(ss) - 1
+    keep = float((1 - dt) ** steps)
+    exp = N * keep + 5 * (1 - keep)              # linear first-order exchange with a constant neighbour
+    detail["expected" if option == "euler" else "expected_mean"] = exp
+    got = last[target]
+    if option == "euler":
+        if not close(got, Fraction(exp), rel=1e-9):
+            return False, "Euler: the free cell next to the chemostated cell holds %r after %d steps, the rate law gives %r" % (got, steps, exp), detail
+        return True, None, detail
+    if abs(got - exp) > 8 * math.sqrt(N - exp + 5) + 5:
+        return False, ("tau-leap: the free cell (%d molecules) next to a chemostated cell (5 molecules) holds %r after %d leaps; first-order diffusion into the "
+                       "chemostated cell leaves %r on average (a count this far off has probability < 1e-12): jumps toward a chemostated cell must still "
+                       "be drawn and removed from the source" % (N, got, steps, exp)), detail
+    return True, None, detail
+
+
 def source_scenarios(ctx):
     """a flagged entry still drives its surroundings, on the real engines: (a) diffusion source — a chemostated cell full of
     molecules next to an empty free cell must fill it; (b) reactant — a chemostated species converts into a free product at the
@@ -606,7 +650,7 @@ def source_scenarios(ctx):
     rng = ctx.rng
     for kind in ("grid", "graph"):
         for option in ("euler", "tauleap", "gillespie"):
-            for scen, N in [("source", 1000)] + [("reactant", N) for N in RESERVOIRS] + ([("small-substrate", 5)] if option != "gillespie" else []):
+            for scen, N in [("source", 1000)] + [("reactant", N) for N in RESERVOIRS] + ([("small-substrate", 5), ("sink", 2000)] if option != "gillespie" else []):
                 ns = 3 if scen == "small-substrate" else rng.choice([2, 3])
                 f = rng.randrange(ns)                 # index of the flagged species
                 p = (f + 1) % ns                      # product species (reactant scenario)
@@ -615,6 +659,8 @@ def source_scenarios(ctx):
                 seed = rng.randrange(1, 2 ** 31 - 1)
                 case = {"kind": "scenario", "scenario": scen, "space": kind, "option": option, "ns": ns, "flagged": f, "product": p,
                         "nsteps": nsteps, "seed": seed, "N": N, "k": k}
+                if scen == "sink":
+                    case.update(nsteps=4)
                 if scen == "small-substrate":
                     case.update(B=10 ** 6, k=1.6e-4, nsteps=(1 if option == "euler" else 8))
                 try:
